@@ -539,19 +539,24 @@ def analyze(ctx, want):
                           (r"<find_matches::FindMatches<'_> as position::PositionProvider>::set_offset$", r"FindMatchesImpl::<..>::set_offset$", "offset"),
                           (r"<find_matches::FindMatches<'_> as position::PositionProvider>::position$", r"FindMatchesImpl::<..>::position$", "offset"),
                           (r"find_matches::FindMatches::<..>::peek_n$", r"FindMatchesImpl::<..>::peek_n$", "n"),
-                          (r"find_matches::FindMatches::<..>::next_match$", r"FindMatchesImpl::<..>::next_match$", None)):
+                          (r"find_matches::FindMatches::<..>::next_match$", r"FindMatchesImpl::<..>::next_match$", None),
+                          (r"<find_matches::FindMatches<'_> as std::iter::Iterator>::next$", r"find_matches::FindMatches::<..>::next_match$", None),
+                          # the with_positions() adaptor hands positions / resets to the iterator it wraps
+                          (r"<with_positions::WithPositions<I> as position::PositionProvider>::set_offset$", r"^<I as position::PositionProvider>::set_offset$", "offset"),
+                          (r"<with_positions::WithPositions<I> as position::PositionProvider>::position$", r"^<I as position::PositionProvider>::position$", "offset")):
         fn = F.fn(pat)
         ex, paths = run_fn(fn, F, Model())
         okall = True
         det = ""
+        recv = "self.iter" if "WithPositions" in pat else ("self" if "Iterator>::next" in pat else "self.inner")
         for p in ret_paths(paths):
             c = p.calls(dst)
-            ok = len(c) == 1 and (arg is None or S.vstr(c[0][3][1]) == arg) and "self.inner" in S.vstr(c[0][3][0])
+            ok = len(c) == 1 and (arg is None or S.vstr(c[0][3][1]) == arg) and recv in S.vstr(c[0][3][0])
             if ok and not re.search(r"set_offset$|with_offset$", fn.name):
                 ok = p.end[1] == c[0][4]
             if not ok:
                 okall = False
-                det = "calls %s" % [(M.short_name(x[2]), [S.vstr(a) for a in x[3]]) for x in p.calls(r"FindMatchesImpl")]
+                det = "calls %s" % [(M.short_name(x[2]), [S.vstr(a) for a in x[3]]) for x in p.calls(r".")][:4]
         ob("C10.a", "public-forward:" + M.short_name(fn.name), okall, det or "forwards %s unchanged to the implementation" % (arg or "the call"), fn.loc())
 
     # =================================================================== advance_to (kinds)
@@ -722,6 +727,9 @@ def analyze(ctx, want):
         hay = S.vstr(b[3][0])
         ob("C09.b", "merge_line_offsets:searches-line_offsets", "self.line_offsets" in hay, "binary_search on %s" % hay, mg.loc(b[1]))
         key = ex.deref_val(p, b[3][1])
+        # every offset of the batch is looked at: the body never leaves the loop, whatever the search says
+        ob("C09.b", "merge_line_offsets:continues-with-the-next-offset", p.end[0] == "cut", "after a search with outcome %s the loop is left (%s): later line starts of the batch are lost" % (v, p.end[0]), mg.loc(b[1]))
+        ob("C09.b", "merge_line_offsets:searches-for-the-current-offset", "item@" in S.fstr(key), "binary_search(&%s)" % S.fstr(key)[:60], mg.loc(b[1]))
         if v == "Ok":
             got["Ok"] += 1
             ob("C09.b", "merge_line_offsets:known-offset-not-duplicated", not ins, "insert although the offset is present", mg.loc())
@@ -731,6 +739,8 @@ def analyze(ctx, want):
             ob("C09.b", "merge_line_offsets:insert-at-search-position", ok,
                "insert(%s)" % [", ".join(S.vstr(a) for a in x[3]) for x in ins], mg.loc())
     ob("C09.b", "merge_line_offsets:both-search-outcomes", got["Ok"] > 0 and got["Err"] > 0, "outcomes: %s" % got, mg.loc())
+    badm = [M.short_name(M.call_name(t)) for bb, t in mg.calls(r"Iterator>::(rev|skip|take|filter|filter_map|step_by|skip_while|take_while|chain|zip)\b")]
+    ob("C09.b", "merge_line_offsets:whole-batch-visited", not badm, "iterator adapters on the batch: %s" % badm, mg.loc())
     # line_offsets initial value [0]
     new = F.fn(r"FindMatchesImpl::<..>::new$")
     ex, paths = run_fn(new, F, Model(), inline=r"ScannerImpl::reset$")
